@@ -59,6 +59,11 @@ CORPUS = [
      '(join full ((a (ds DS_1)) (b (ds DS_2))) _ %s)' % J,
      {'DS_1': _ds([I1, I2], [M1], [(1, 'a', 10), (2, 'b', 20)]), 'DS_2': _ds([I2, I1], [M5], [('a', 1, 100), ('c', 3, 300)])},
      dict(kind='full', struct='equal', nops=2, must_accept=True)),
+    ('apply-then-rename',
+     'DS_r <- inner_join(DS_1 as d1, DS_2 as d2 apply d1 + d2 rename Me_5 to X);',
+     '(join inner ((d1 (ds DS_1)) (d2 (ds DS_2))) _ (rename (keep (calc %s (("Me_5" (bin add (col "d1#Me_5") (col "d2#Me_5"))))) ("Me_5")) (("Me_5" "X"))))' % J,
+     {'DS_1': _ds([I1, I2], [M5], [(1, 'a', 10), (2, 'b', 20)]), 'DS_2': _ds([I1], [M5], [(1, 5), (3, 7)])},
+     dict(kind='inner', struct='nested', nops=2, body=['apply', 'rename'])),
     ('left3-nested',
      'DS_r <- left_join(DS_1 as a, DS_2 as b, DS_3 as c keep a#Me_1, Me_5);',
      '(join left ((a (ds DS_1)) (b (ds DS_2)) (c (ds DS_3))) _ (keep %s ("a#Me_1" "Me_5")))' % J,
@@ -155,6 +160,9 @@ def classify(case, verdict, eng_out):
     what = verdict.split(':', 1)[1]
     if full_nary_pattern(case) and what in ('engine-duplicate-keys', 'keys', 'value'):
         return 'full_join:n-ary:key-absent-from-first-operand-present-in-two-later-operands'
+    body_l = case.get('body') or []
+    if what == 'engine-error' and eng_out[0] == 'raw' and 'apply' in body_l and ('rename' in body_l or 'drop' in body_l) and 'BinderException' in eng_out[1]:
+        return 'join-body:apply-followed-by-drop-or-rename:BinderException'
     head = '%s_join:%dops:%s' % (case['kind'], case['nops'], case['struct'])
     if case.get('variant', 'plain') != 'plain':
         head += ':' + case['variant']
